@@ -28,6 +28,8 @@ var c11Msgs = [][]c11Seg{
 	{{1, "($a + 1) * 2"}, {0, " vs "}, {1, "$a + 1 * 2"}},
 	{{1, "$a.x"}, {0, "-"}, {1, "$c.x"}, {0, "-"}, {1, "$x_1"}},
 	{{0, "only text"}},
+	{{1, "$b|escapeUri"}, {0, " / "}, {1, "$b"}, {0, " / "}, {1, "$b|noAutoescape"}, {0, " / "}, {1, "$b"}},
+	{{2, "<a href=\"/x\">"}, {1, "$b"}, {2, "</a>"}, {0, " or "}, {2, "<a href=\"/y\">"}, {1, "$a"}, {2, "</a>"}},
 }
 
 func c11MsgSrc(segs []c11Seg) string {
